@@ -421,4 +421,11 @@ func init() {
 		File: "util.go", Old: "func isInt(k reflect.Kind) bool {\n	switch k {\n	case reflect.Int, reflect.Int8, reflect.Int16, reflect.Int32, reflect.Int64:\n		return true\n	default:\n		return false\n	}\n}", New: "func isInt(k reflect.Kind) bool {\n	return reflect.Int <= k && k <= reflect.Int64\n}"})
 	addControl(control{Prop: "C06", Name: "unpack-loop-renamed", Rule: "R06a", Kind: "refactor",
 		File: "reify.go", Old: "				fopts := fieldOptions{opts: fInfo.options, tag: fInfo.tagOptions, validators: fInfo.validatorTags}\n				if err := reifyGetField(cfg, fopts, fInfo.name, fInfo.value, fInfo.ftype); err != nil {\n					return err\n				}", New: "				key, target := fInfo.name, fInfo.value\n				fopts := fieldOptions{opts: fInfo.options, tag: fInfo.tagOptions, validators: fInfo.validatorTags}\n				err := reifyGetField(cfg, fopts, key, target, fInfo.ftype)\n				if err != nil {\n					return err\n				}"})
+	// ---------------- C02 (computed names) ----------------
+	addControl(control{Prop: "C02", Name: "nested-reference-uses-readers-separator", Rule: "R02f", Kind: "mutant", Quick: true,
+		File: "variables.go", Old: "	ref := newReference(parsePath(path, e.pathSep, opts.maxIdx, opts.enableNumKeys, opts.escapePath))\n	return ref.eval(cfg, opts)", New: "	ref := newReference(parsePathWithOpts(path, opts))\n	return ref.eval(cfg, opts)", Expect: "R02f/(*ucfg.expansionSingle).eval"})
+	addControl(control{Prop: "C02", Name: "error-operator-uses-readers-separator", Rule: "R02f", Kind: "mutant",
+		File: "variables.go", Old: "		ref := newReference(parsePath(path, e.pathSep, opts.maxIdx, opts.enableNumKeys, opts.escapePath))\n		str, err := ref.eval(cfg, opts)", New: "		ref := newReference(parsePathWithOpts(path, opts))\n		str, err := ref.eval(cfg, opts)", Expect: "R02f/(*ucfg.expansionErr).eval"})
+	addControl(control{Prop: "C02", Name: "separator-in-local", Rule: "R02f", Kind: "refactor",
+		File: "variables.go", Old: "	ref := newReference(parsePath(path, e.pathSep, opts.maxIdx, opts.enableNumKeys, opts.escapePath))\n	return ref.eval(cfg, opts)", New: "	sep := e.pathSep\n	p := parsePath(path, sep, opts.maxIdx, opts.enableNumKeys, opts.escapePath)\n	ref := newReference(p)\n	return ref.eval(cfg, opts)"})
 }
